@@ -1,6 +1,7 @@
 import Xp.Base.JsonIO
 import Xp.Model.C07
 import Xp.Model.C07World
+import Xp.Model.C07Upgrade
 namespace Xp.C07
 open Lean (Json)
 open Xp.IOx
@@ -184,9 +185,16 @@ def genOf : Op → String
   | .syncCSA g => g
   | _ => ""
 
-def runAll (cfg : Cfg) (hist : List Srv) : List (Op × Json) → List Json → String → List Json × String
-  | [], acc, why => (acc.reverse, why)
-  | (op, oj) :: rest, acc, why =>
+/-- op `upgradeProbe`: the managed-fields upgrader against an object listing the managers
+`mf`, its only API call failing with the class injected at k = 0 (if any) -/
+def probeJson (oj : Json) : Json :=
+  let inj := ((arr oj "inj").find? fun a => nat a "k" == 0).map fun a => str a "class"
+  let o := upgradeRun true Xp.Gen.fieldOwnerXR (strs oj "mf") inj
+  Json.mkObj [("managers", Json.arr (o.managers.map Json.str).toArray), ("calls", Json.num o.calls), ("err", .str o.err)]
+
+def runAll (cfg : Cfg) (hist : List Srv) : List (Op × Json) → List Json → List Json → String → List Json × List Json × String
+  | [], acc, pacc, why => (acc.reverse, pacc.reverse, why)
+  | (op, oj) :: rest, acc, pacc, why =>
     let s := back hist 0
     if isSync op then
       let o := syncW cfg (isSSA op) (genOf op) oj hist
@@ -196,12 +204,14 @@ def runAll (cfg : Cfg) (hist : List Srv) : List (Op × Json) → List Json → S
       -- the model-side verdict is evaluated for syncs in the quiet world
       let w := if why == "" && isQuietJ oj then
           checkStep (isSSA op) s.toSt { st := o.srv.toSt, writes := o.writes, err := o.err } else why
-      runAll cfg (o.srv :: hist) rest (j :: acc) w
-    else runAll cfg (stepEnvW s op :: hist) rest acc why
+      runAll cfg (o.srv :: hist) rest (j :: acc) pacc w
+    else
+      let pacc' := if str oj "op" == "upgradeProbe" then probeJson oj :: pacc else pacc
+      runAll cfg (stepEnvW s op :: hist) rest acc pacc' why
 
 /-- One claim/XR pair with its history, run on its own: the model of a sync is a
 function of that pair's state only. -/
-def runPair (j : Json) : Except String (List Json × String) :=
+def runPair (j : Json) : Except String (List Json × List Json × String) :=
   let cm := kobjOf (obj j "claim")
   let xr := if has j "xr" then some (kobjOf (obj j "xr")) else none
   let ops := (arr j "ops").filterMap fun o => (opOf o).map fun x => (x, o)
@@ -213,15 +223,15 @@ def runPair (j : Json) : Except String (List Json × String) :=
   if !okDom then .error "claim does not reference the stored XR" else
   -- the claim's namespace (same-named claims of two namespaces are different claims)
   let c := if str j "ns" == "" then cfg else { cfg with claimNS := str j "ns" }
-  .ok (runAll c [{ cm := cm, xr := xr, prev := none }] ops [] "")
+  .ok (runAll c [{ cm := cm, xr := xr, prev := none }] ops [] [] "")
 
 def runPeers : List Json → List Json → String → Except String (List Json × String)
   | [], acc, why => .ok (acc.reverse, why)
   | p :: rest, acc, why =>
     match runPair p with
     | .error e => .error e
-    | .ok (steps, w) =>
-      runPeers rest (Json.mkObj [("steps", Json.arr steps.toArray)] :: acc) (if why == "" then w else why)
+    | .ok (steps, probes, w) =>
+      runPeers rest (Json.mkObj [("steps", Json.arr steps.toArray), ("probes", Json.arr probes.toArray)] :: acc) (if why == "" then w else why)
 
 /-- The scenario is a main pair plus peer pairs (other claims of the same XRD that the
 real run pushes through the SAME long-lived syncer objects, interleaved by `sched`).
@@ -230,10 +240,10 @@ must not depend on which other claims the syncer served before. -/
 def handler : Handler := fun scn =>
   match runPair scn with
   | .error e => .error e
-  | .ok (steps, why) =>
+  | .ok (steps, probes, why) =>
     match runPeers (arr scn "peers") [] why with
     | .error e => .error e
     | .ok (peers, why) =>
-      .ok (Json.mkObj [("steps", Json.arr steps.toArray), ("peers", Json.arr peers.toArray)], why == "", why)
+      .ok (Json.mkObj [("steps", Json.arr steps.toArray), ("probes", Json.arr probes.toArray), ("peers", Json.arr peers.toArray)], why == "", why)
 
 end Xp.C07
